@@ -49,6 +49,20 @@ def _args( args, env ):
     return out
 
 
+def _kwargs( keywords, env ):
+    """the folded keyword arguments of a call, **mapping ones merged"""
+    out = {}
+    for k in keywords:
+        if k.arg is None:
+            m = fold( k.value, env )
+            if not isinstance( m, dict ):
+                raise NoFold( '** of %r' % type( m ).__name__ )
+            out.update( m )
+        else:
+            out[k.arg] = fold( k.value, env )
+    return out
+
+
 def _standin( func, env ):
     """is the dotted callee a stand-in the rule put into the environment ( it then takes precedence over any built-in evaluation )"""
     from .core import dotted as _dotted
@@ -182,30 +196,30 @@ def fold( e, env=None ):
             return list( getattr( base, e.func.attr )())
     if isinstance( e, ast.Dict ) and all( k is not None for k in e.keys ):
         return { fold( k, env ): fold( v, env ) for k, v in zip( e.keys, e.values ) }
-    if isinstance( e, ast.Call ) and isinstance( e.func, ast.Name ) and env is not None and all( k.arg for k in e.keywords ):
+    if isinstance( e, ast.Call ) and isinstance( e.func, ast.Name ) and env is not None and True:
         # a callable the rule put into the environment under the callee's name ( a marking cast ), or a helper of the analysed file made
         # available as 'call:<name>' ( see helper_calls ): evaluated on the folded arguments
         for key in ( e.func.id, 'call:' + e.func.id ):
             f_ = _env_get( env, key )
             if f_ is not NoFold and callable( f_ ):
-                return _call( f_, _args( e.args, env ), { k.arg: fold( k.value, env ) for k in e.keywords } )
-    if isinstance( e, ast.Call ) and isinstance( e.func, ast.Name ) and e.func.id == 'dict' and not e.args and all( k.arg for k in e.keywords ):
-        return { k.arg: fold( k.value, env ) for k in e.keywords }
-    if isinstance( e, ast.Call ) and isinstance( e.func, ast.Attribute ) and env is not None and all( k.arg for k in e.keywords ):
+                return _call( f_, _args( e.args, env ), _kwargs( e.keywords, env ) )
+    if isinstance( e, ast.Call ) and isinstance( e.func, ast.Name ) and e.func.id == 'dict' and not e.args and True:
+        return _kwargs( e.keywords, env )
+    if isinstance( e, ast.Call ) and isinstance( e.func, ast.Attribute ) and env is not None and True:
         # a method the rule put into the environment under its dotted name ( 'self._back.pop' ): a marking stand-in, evaluated on the folded arguments
         from .core import dotted as _dotted
         d_ = _dotted( e.func )
         if d_ is not None:
             f_ = _env_get( env, d_ )
             if f_ is not NoFold and callable( f_ ):
-                return _call( f_, _args( e.args, env ), { k.arg: fold( k.value, env ) for k in e.keywords } )
-    if isinstance( e, ast.Call ) and isinstance( e.func, ast.Attribute ) and env is not None and all( k.arg for k in e.keywords ):
+                return _call( f_, _args( e.args, env ), _kwargs( e.keywords, env ) )
+    if isinstance( e, ast.Call ) and isinstance( e.func, ast.Attribute ) and env is not None and True:
         try:
             base_ = fold( e.func.value, env )
         except NoFold:
             base_ = None
         if isinstance( base_, _Record ) and callable( getattr( base_, e.func.attr, None )):
-            return _call( getattr( base_, e.func.attr ), _args( e.args, env ), { k.arg: fold( k.value, env ) for k in e.keywords } )
+            return _call( getattr( base_, e.func.attr ), _args( e.args, env ), _kwargs( e.keywords, env ) )
     if isinstance( e, ast.Call ) and isinstance( e.func, ast.Name ) and e.func.id in _SAFE_BUILTINS and _SAFE_BUILTINS[e.func.id] is not None and not e.keywords:
         args = []
         for a in e.args:
@@ -219,7 +233,7 @@ def fold( e, env=None ):
             raise Raises( '%s: %s' % ( type( exc ).__name__, exc ))
     if isinstance( e, ast.Call ) and isinstance( e.func, ast.Attribute ) and e.func.attr == 'format' and isinstance( e.func.value, ast.Constant ) and isinstance( e.func.value.value, str ):
         try:
-            return e.func.value.value.format( *_args( e.args, env ), **{ k.arg: fold( k.value, env ) for k in e.keywords } )
+            return e.func.value.value.format( *_args( e.args, env ), **_kwargs( e.keywords, env ) )
         except NoFold:
             raise
         except Exception as exc:
@@ -399,6 +413,9 @@ def run_block( stmts, env, ignore_calls=(), stop_at_yield=True ):
                     base_ = None
                 if isinstance( base_, _Record ) and callable( getattr( base_, v.func.attr, None )):
                     fold( v, env )					# a method of a record the rule supplied ( source.push( x ) )
+                    continue
+                if ( isinstance( base_, set ) and v.func.attr in ( 'add', 'update', 'discard' ) or isinstance( base_, dict ) and v.func.attr == 'update' ) and not v.keywords:
+                    getattr( base_, v.func.attr )( *_args( v.args, env ))			# the cell's own set / mapping grows
                     continue
                 if isinstance( base_, list ) and v.func.attr in ( 'append', 'extend', 'insert' ) and not v.keywords:
                     getattr( base_, v.func.attr )( *[ fold( a, env ) for a in v.args ] )	# the cell's own work-list grows
